@@ -46,10 +46,15 @@ class Report:
         return bool(found)
 
     def floor(self, name, count, minimum):
-        """Instance-count floor confirmed by hand on the pinned tree."""
-        ok = count >= minimum
+        """Instance-count floor: `minimum` is the number of instances confirmed by hand on the pinned tree.  A rule that
+        matches nothing passes vacuously, so a collapse of the count fails the check; de-duplicating code (fifty copies
+        of one idiom folded into a helper) legitimately lowers it, so the check fails below half of the confirmed count
+        and reports anything below the confirmed count as a note."""
+        ok = count >= max(1, (minimum + 1) // 2)
         self.obls.append(Obligation("floor", "floor:%s" % name, ok,
-                                    "%d instances (floor %d)" % (count, minimum), "", nontrivial=False))
+                                    "%d instances (confirmed on the pinned tree: %d; fails below %d)" % (count, minimum, max(1, (minimum + 1) // 2)), "", nontrivial=False))
+        if ok and count < minimum:
+            self.notes.append("instance count of '%s' is %d, below the %d confirmed on the pinned tree" % (name, count, minimum))
         return ok
 
     def note(self, s):
